@@ -64,12 +64,12 @@ def gen_case(rng):
         nin = rng.choice([1, 2, 2])
         c = {'comp': comp, 'method': method}
         if implicit:
-            nst = rng.choice([1, 1, 2])
+            nst = rng.choice([1, 2, 2]) if comp == 'ifunc' else rng.choice([1, 1, 2])
             sshapes = pick_shapes(rng, nst, 5 if tall else 3, nd)
             ishapes = pick_shapes(rng, nin, 3 if tall else 6, nd)
             c['states'] = [['s%d' % k, s] for k, s in enumerate(sshapes)]
             outs = [['r%d' % k, s] for k, s in enumerate(sshapes)]
-            if nst == 2 and comp == 'ifunc' and rng.random() < 0.5:
+            if nst == 2 and comp == 'ifunc' and rng.random() < 0.75:
                 c['sig_order'] = [1, 0]
             c['mode'] = rng.choice(['auto', 'auto', 'fwd', 'rev'])
         else:
